@@ -367,3 +367,533 @@ Proof.
       pose proof (IH _ _ _ Hwr Hrb Hok2) as Hl.
       rewrite !app_length. cbn [List.length]. rewrite !app_length. lia.
 Qed.
+
+(* ------------------------------------------------------------------ *)
+(* the statement proved by induction on the tree *)
+Definition P (o : oracle) (l : lit) : Prop :=
+  forall wb lay n inside toks n' v tr rest fuel,
+    lay_ok lay -> lit_wf o l -> py_eval o l = Some v ->
+    render l lay n inside = (toks, n') -> Forall tok_ok toks ->
+    Forall trivia_tok tr -> follows rest -> List.length toks <= fuel ->
+    parse_value fuel o wb (toks ++ tr ++ rest) = POk (v, rest).
+
+Lemma P_use : forall o x wb lay n toks n' v rest f,
+  P o x -> lay_ok lay -> lit_wf o x -> py_eval o x = Some v ->
+  render x lay n true = (toks, n') -> Forall tok_ok toks -> follows rest -> List.length toks <= f ->
+  parse_value f o wb (toks ++ rest) = POk (v, rest).
+Proof.
+  intros o x wb lay n toks n' v rest f HP Hlay Hwf Hev Hr Hok Hrest Hlen.
+  exact (HP wb lay n true toks n' v [] rest f Hlay Hwf Hev Hr Hok (Forall_nil _) Hrest Hlen).
+Qed.
+
+Definition has_comma {A} (items : list A) (trailing : bool) : bool :=
+  match items with [] => false | [_] => trailing | _ => true end.
+
+Lemma close_not_comma : forall c, is_close c -> String.eqb c "," = false.
+Proof. intros c [ -> | [ -> | -> ] ]; reflexivity. Qed.
+
+Lemma pv_loop_done : forall f o wb close is_dict k R vals pairs sc,
+  pv_loop f o wb close is_dict (S k) (op_tok close :: R) vals pairs sc
+  = POk (vals, pairs, sc, op_tok close :: R).
+Proof. intros. rewrite pv_loop_S. rewrite cur_is_op. rewrite String.eqb_refl. reflexivity. Qed.
+
+Ltac norm := repeat first [ rewrite <- app_assoc | progress cbn [app] ].
+
+Lemma loop_items : forall o f wb close lay trailing,
+  lay_ok lay -> is_close close ->
+  forall items, Forall (P o) items -> Forall (lit_wf o) items ->
+  forall n body n1 vs R vals pairs sc fuel,
+  eval_items o items = Some vs ->
+  render_items lay trailing items n = (body, n1) ->
+  Forall tok_ok body -> List.length body <= f -> List.length items < fuel ->
+  pv_loop f o wb close false fuel (body ++ op_tok close :: R) vals pairs sc
+  = POk (vals ++ vs, pairs, sc || has_comma items trailing, op_tok close :: R).
+Proof.
+  intros o f wb close lay trailing Hlay Hclose items HP.
+  induction HP as [|x r HPx HPr IH]; intros Hwf n body n1 vs R vals pairs sc fuel Hev Hr Hok Hlen Hfuel.
+  - cbn [render_items] in Hr. injection Hr as <- <-. cbn [eval_items] in Hev. injection Hev as <-.
+    destruct fuel as [|k]; [cbn in Hfuel; lia|]. cbn [app]. rewrite pv_loop_done.
+    rewrite app_nil_r. cbn [has_comma]. rewrite orb_false_r. reflexivity.
+  - pose proof (Forall_inv Hwf) as Hwx. pose proof (Forall_inv_tail Hwf) as Hwr.
+    cbn [eval_items] in Hev. destruct (py_eval o x) as [v0|] eqn:Ev0; [|discriminate].
+    destruct (eval_items o r) as [vs'|] eqn:Evr; [|discriminate]. injection Hev as <-.
+    destruct (render_items_cons _ _ _ _ _ _ _ Hr) as [tx [nx [Hrx Hc]]].
+    destruct fuel as [|k]; [cbn in Hfuel; lia|]. cbn [List.length] in Hfuel.
+    assert (Hb : exists tl, body = tx ++ tl)
+      by (destruct Hc as [[_ [-> _]]|[_ [rb [_ ->]]]]; eexists; reflexivity).
+    destruct Hb as [tl Eb].
+    assert (Hoktx : Forall tok_ok tx) by (rewrite Eb in Hok; apply Forall_app in Hok; tauto).
+    assert (Hlentx : List.length tx <= f) by (rewrite Eb in Hlen; rewrite app_length in Hlen; lia).
+    destruct (render_first _ _ _ _ _ _ _ Hwx Hrx Hoktx) as [t0 [tx' [Etx Hs0]]].
+    rewrite pv_loop_S.
+    assert (Hnc : cur_is (body ++ op_tok close :: R) close = false).
+    { rewrite Eb, Etx. cbn [app]. apply start_not_close; assumption. }
+    rewrite Hnc. clear Hnc Eb tl.
+    destruct Hc as [[-> [-> _]]|[Hrne [rb [Hrb ->]]]].
+    + (* last item *)
+      assert (Hk : exists k', k = S k') by (destruct k; [cbn in Hfuel; lia | eexists; reflexivity]).
+      destruct Hk as [k' ->].
+      cbn [eval_items] in Evr. injection Evr as <-.
+      destruct trailing.
+      * norm.
+        rewrite (P_use o x wb lay n tx nx v0 (op_tok "," :: lay nx ++ op_tok close :: R) f
+                   HPx Hlay Hwx Ev0 Hrx Hoktx (op_follow _ _) Hlentx).
+        cbv beta match zeta. rewrite cur_is_op. rewrite String.eqb_refl.
+        rewrite advance_solid; [| apply Hlay | apply op_solid].
+        rewrite pv_loop_done. cbn [has_comma]. rewrite orb_true_r. reflexivity.
+      * norm.
+        rewrite (P_use o x wb lay n tx nx v0 (op_tok close :: R) f
+                   HPx Hlay Hwx Ev0 Hrx Hoktx (op_follow _ _) Hlentx).
+        cbv beta match zeta. rewrite !cur_is_op. rewrite (close_not_comma _ Hclose).
+        rewrite String.eqb_refl. cbn [negb].
+        rewrite pv_loop_done. cbn [has_comma]. rewrite orb_false_r. reflexivity.
+    + (* more items follow *)
+      apply Forall_app in Hok. destruct Hok as [_ Hok2].
+      apply Forall_inv_tail in Hok2. apply Forall_app in Hok2. destruct Hok2 as [_ Hokrb].
+      assert (Hlenrb : List.length rb <= f).
+      { rewrite app_length in Hlen. cbn [List.length] in Hlen. rewrite app_length in Hlen. lia. }
+      destruct (render_items_shape _ _ _ _ _ _ _ Hwr Hrb Hokrb) as [[E _]|[_ [t1 [b' [Erb Hs1]]]]];
+        [congruence|].
+      assert (Hadv : advance wb (op_tok "," :: lay nx ++ rb ++ op_tok close :: R)
+                     = POk (rb ++ op_tok close :: R)).
+      { rewrite Erb. cbn [app]. apply advance_solid; [apply Hlay | apply start_solid; exact Hs1]. }
+      norm.
+      rewrite (P_use o x wb lay n tx nx v0 (op_tok "," :: lay nx ++ rb ++ op_tok close :: R) f
+                 HPx Hlay Hwx Ev0 Hrx Hoktx (op_follow _ _) Hlentx).
+      cbv beta match zeta. rewrite cur_is_op. rewrite String.eqb_refl.
+      rewrite Hadv.
+      rewrite (IH Hwr (S nx) rb n1 vs' R (vals ++ [v0]) pairs true k eq_refl Hrb Hokrb Hlenrb ltac:(lia)).
+      destruct r as [|y r']; [congruence|]. cbn [has_comma]. rewrite orb_true_r.
+      rewrite <- app_assoc. reflexivity.
+Qed.
+
+Lemma close_brace : is_close "}".
+Proof. right; right; reflexivity. Qed.
+
+Lemma loop_ditems : forall o f wb lay trailing,
+  lay_ok lay ->
+  forall items, Forall (fun kv => P o (fst kv) /\ P o (snd kv)) items ->
+  Forall (fun kv => lit_wf o (fst kv) /\ lit_wf o (snd kv)) items ->
+  forall n body n1 kvs R vals pairs sc fuel,
+  eval_ditems o items = Some kvs ->
+  render_ditems lay trailing items n = (body, n1) ->
+  Forall tok_ok body -> List.length body <= f -> List.length items < fuel ->
+  pv_loop f o wb "}" true fuel (body ++ op_tok "}" :: R) vals pairs sc
+  = POk (vals ++ map snd kvs, pairs ++ kvs, sc || has_comma items trailing, op_tok "}" :: R).
+Proof.
+  intros o f wb lay trailing Hlay items HP.
+  induction HP as [|[k v] r HPx HPr IH]; intros Hwf n body n1 kvs R vals pairs sc fuel Hev Hr Hok Hlen Hfuel.
+  - cbn [render_ditems] in Hr. injection Hr as <- <-. cbn [eval_ditems] in Hev. injection Hev as <-.
+    destruct fuel as [|k]; [cbn in Hfuel; lia|]. cbn [app]. rewrite pv_loop_done.
+    cbn [map]. rewrite !app_nil_r. cbn [has_comma]. rewrite orb_false_r. reflexivity.
+  - destruct HPx as [HPk HPv]. cbn [fst snd] in HPk, HPv.
+    destruct (Forall_inv Hwf) as [Hwk Hwv]. cbn [fst snd] in Hwk, Hwv.
+    pose proof (Forall_inv_tail Hwf) as Hwr.
+    cbn [eval_ditems] in Hev. destruct (py_eval o k) as [vk|] eqn:Evk; [|discriminate].
+    destruct (py_eval o v) as [vv|] eqn:Evv; [|discriminate].
+    destruct (eval_ditems o r) as [kvs'|] eqn:Evr; [|discriminate]. injection Hev as <-.
+    destruct (render_ditems_cons _ _ _ _ _ _ _ _ Hr) as [tk [n2 [tv [n3 [Hrk [Hrv Hc]]]]]].
+    destruct fuel as [|fu]; [cbn in Hfuel; lia|]. cbn [List.length] in Hfuel.
+    assert (Hb : exists tl, body = (tk ++ op_tok ":" :: lay n2 ++ tv) ++ tl)
+      by (destruct Hc as [[_ [-> _]]|[_ [rb [_ ->]]]]; eexists; reflexivity).
+    destruct Hb as [tl Eb].
+    assert (Hoktk : Forall tok_ok tk).
+    { rewrite Eb in Hok. apply Forall_app in Hok. destruct Hok as [Hok _].
+      apply Forall_app in Hok. tauto. }
+    assert (Hoktv : Forall tok_ok tv).
+    { rewrite Eb in Hok. apply Forall_app in Hok. destruct Hok as [Hok _].
+      apply Forall_app in Hok. destruct Hok as [_ Hok]. apply Forall_inv_tail in Hok.
+      apply Forall_app in Hok. tauto. }
+    assert (Hlentk : List.length tk <= f /\ List.length tv <= f).
+    { rewrite Eb in Hlen. rewrite !app_length in Hlen. cbn [List.length] in Hlen.
+      rewrite app_length in Hlen. lia. }
+    destruct Hlentk as [Hlentk Hlentv].
+    destruct (render_first _ _ _ _ _ _ _ Hwk Hrk Hoktk) as [t0 [tk' [Etk Hs0]]].
+    destruct (render_first _ _ _ _ _ _ _ Hwv Hrv Hoktv) as [t1 [tv' [Etv Hs1]]].
+    rewrite pv_loop_S.
+    assert (Hnc : cur_is (body ++ op_tok "}" :: R) "}" = false).
+    { rewrite Eb, Etk. cbn [app]. apply start_not_close; [assumption | apply close_brace]. }
+    rewrite Hnc. clear Hnc Eb tl.
+    assert (Hadvv : forall Z, advance wb (op_tok ":" :: lay n2 ++ tv ++ Z) = POk (tv ++ Z)).
+    { intro Z. rewrite Etv. cbn [app]. apply advance_solid; [apply Hlay | apply start_solid; exact Hs1]. }
+    destruct Hc as [[-> [-> _]]|[Hrne [rb [Hrb ->]]]].
+    + (* last item *)
+      assert (Hk : exists k', fu = S k') by (destruct fu; [cbn in Hfuel; lia | eexists; reflexivity]).
+      destruct Hk as [k' ->].
+      cbn [eval_ditems] in Evr. injection Evr as <-.
+      destruct trailing.
+      * norm.
+        rewrite (P_use o k wb lay n tk n2 vk
+                   (op_tok ":" :: lay n2 ++ tv ++ op_tok "," :: lay n3 ++ op_tok "}" :: R) f
+                   HPk Hlay Hwk Evk Hrk Hoktk (op_follow _ _) Hlentk).
+        cbv beta match zeta. rewrite cur_is_op. rewrite String.eqb_refl. cbn [negb].
+        rewrite Hadvv.
+        rewrite (P_use o v wb lay (S n2) tv n3 vv (op_tok "," :: lay n3 ++ op_tok "}" :: R) f
+                   HPv Hlay Hwv Evv Hrv Hoktv (op_follow _ _) Hlentv).
+        cbv beta match zeta. rewrite cur_is_op. rewrite String.eqb_refl.
+        rewrite advance_solid; [| apply Hlay | apply op_solid].
+        rewrite pv_loop_done. cbn [has_comma map]. rewrite orb_true_r. reflexivity.
+      * norm.
+        rewrite (P_use o k wb lay n tk n2 vk
+                   (op_tok ":" :: lay n2 ++ tv ++ op_tok "}" :: R) f
+                   HPk Hlay Hwk Evk Hrk Hoktk (op_follow _ _) Hlentk).
+        cbv beta match zeta. rewrite cur_is_op. rewrite String.eqb_refl. cbn [negb].
+        rewrite Hadvv.
+        rewrite (P_use o v wb lay (S n2) tv n3 vv (op_tok "}" :: R) f
+                   HPv Hlay Hwv Evv Hrv Hoktv (op_follow _ _) Hlentv).
+        cbv beta match zeta. rewrite !cur_is_op. rewrite (close_not_comma _ close_brace).
+        rewrite String.eqb_refl. cbn [negb].
+        rewrite pv_loop_done. cbn [has_comma map]. rewrite orb_false_r. reflexivity.
+    + (* more items follow *)
+      apply Forall_app in Hok. destruct Hok as [_ Hok2].
+      apply Forall_inv_tail in Hok2. apply Forall_app in Hok2. destruct Hok2 as [_ Hokrb].
+      assert (Hlenrb : List.length rb <= f).
+      { rewrite !app_length in Hlen. cbn [List.length] in Hlen. rewrite !app_length in Hlen. lia. }
+      destruct (render_ditems_shape _ _ _ _ _ _ _ Hwr Hrb Hokrb) as [[E _]|[_ [t2 [b' [Erb Hs2]]]]];
+        [congruence|].
+      assert (Hadv : advance wb (op_tok "," :: lay n3 ++ rb ++ op_tok "}" :: R)
+                     = POk (rb ++ op_tok "}" :: R)).
+      { rewrite Erb. cbn [app]. apply advance_solid; [apply Hlay | apply start_solid; exact Hs2]. }
+      norm.
+      rewrite (P_use o k wb lay n tk n2 vk
+                 (op_tok ":" :: lay n2 ++ tv ++ op_tok "," :: lay n3 ++ rb ++ op_tok "}" :: R) f
+                 HPk Hlay Hwk Evk Hrk Hoktk (op_follow _ _) Hlentk).
+      cbv beta match zeta. rewrite cur_is_op. rewrite String.eqb_refl. cbn [negb].
+      rewrite Hadvv.
+      rewrite (P_use o v wb lay (S n2) tv n3 vv (op_tok "," :: lay n3 ++ rb ++ op_tok "}" :: R) f
+                 HPv Hlay Hwv Evv Hrv Hoktv (op_follow _ _) Hlentv).
+      cbv beta match zeta. rewrite cur_is_op. rewrite String.eqb_refl.
+      rewrite Hadv.
+      rewrite (IH Hwr (S n3) rb n1 kvs' R (vals ++ [vv]) (pairs ++ [(vk, vv)]) true fu eq_refl Hrb Hokrb Hlenrb ltac:(lia)).
+      destruct r as [|y r']; [congruence|]. cbn [has_comma map snd]. rewrite orb_true_r.
+      rewrite <- !app_assoc. reflexivity.
+Qed.
+
+(* ------------------------------------------------------------------ *)
+(* a whole bracketed construct *)
+Lemma text_cur_op : forall s R, text (cur (op_tok s :: R)) = s.
+Proof. reflexivity. Qed.
+
+Lemma container_parse : forall o wb open_ close lay n body trin tr rest f vals pairs sc v,
+  closer open_ = Some close ->
+  lay_ok lay -> Forall trivia_tok trin -> Forall trivia_tok tr -> follows rest ->
+  (body = [] \/ exists t0 b', body = t0 :: b' /\ start_tok t0) ->
+  (forall fuel R, List.length body < fuel ->
+     pv_loop f o wb close (String.eqb open_ "{") fuel (body ++ op_tok close :: R) [] [] false
+     = POk (vals, pairs, sc, op_tok close :: R)) ->
+  container_value open_ vals pairs sc = v ->
+  parse_value (S f) o wb (([op_tok open_] ++ lay n ++ body ++ [op_tok close] ++ trin) ++ tr ++ rest)
+  = POk (v, rest).
+Proof.
+  intros o wb open_ close lay n body trin tr rest f vals pairs sc v
+         Hcl Hlay Htrin Htr Hrest Hshape Hloop Hv.
+  norm.
+  rewrite (parse_value_container f o wb _ close); [|exact Hcl].
+  assert (Hadv : forall Z, advance wb (op_tok open_ :: lay n ++ body ++ op_tok close :: Z)
+                           = POk (body ++ op_tok close :: Z)).
+  { intro Z. destruct Hshape as [-> | [t0 [b' [-> Hs]]]]; cbn [app].
+    - apply advance_solid; [apply Hlay | apply op_solid].
+    - apply advance_solid; [apply Hlay | apply start_solid; exact Hs]. }
+  rewrite Hadv. rewrite !text_cur_op.
+  rewrite Hloop; [| rewrite app_length; cbn [List.length]; lia].
+  cbv beta match.
+  destruct Hrest as [t0 [r0 [-> Hf0]]].
+  rewrite app_assoc.
+  rewrite advance_solid; [| apply Forall_app; split; assumption | apply follow_solid; exact Hf0].
+  rewrite Hv. reflexivity.
+Qed.
+
+Lemma eval_items_length : forall o items vs, eval_items o items = Some vs -> List.length vs = List.length items.
+Proof.
+  intros o items. induction items as [|x r IH]; intros vs H; cbn [eval_items] in H.
+  - injection H as <-. reflexivity.
+  - destruct (py_eval o x); [|discriminate]. destruct (eval_items o r) as [vs'|]; [|discriminate].
+    injection H as <-. cbn [List.length]. rewrite (IH vs' eq_refl). reflexivity.
+Qed.
+
+Lemma basic_loop_atom : forall o wb f t acc v tr rest,
+  (ty t = NAME \/ ty t = NUMBER) -> olookup o (acc_next acc (text t)) = Some (Some v) ->
+  Forall trivia_tok tr -> follows rest ->
+  basic_loop (S f) o wb (t :: tr ++ rest) acc = POk (v, rest).
+Proof.
+  intros o wb f t acc v tr rest Hty Hv Htr Hrest.
+  rewrite basic_loop_S. cbn [cur hd]. cbv zeta. rewrite Hv.
+  destruct Hrest as [t0 [r0 [-> Hf0]]].
+  rewrite advance_solid; [| exact Htr | apply follow_solid; exact Hf0].
+  unfold cur_ty at 1. cbn [cur hd]. destruct Hty as [E|E]; rewrite E; reflexivity.
+Qed.
+
+Lemma render_strs_length : forall trf ts n toks n',
+  render_strs trf ts n = (toks, n') -> List.length ts <= List.length toks.
+Proof.
+  intros trf ts. induction ts as [|t r IH]; intros n toks n' H.
+  - cbn; lia.
+  - apply render_strs_cons in H. destruct H as [toks1 [H1 ->]].
+    pose proof (IH _ _ _ H1). cbn [List.length]. rewrite app_length. lia.
+Qed.
+
+Lemma prefixes_ne_head : forall (t : token) more p, In p (prefixes_ne (t :: more)) -> exists p', p = t :: p'.
+Proof.
+  intros t more p H. cbn [prefixes_ne] in H. destruct H as [H|H].
+  - exists []. symmetry. exact H.
+  - apply in_map_iff in H. destruct H as [p' [E _]]. exists p'. symmetry. exact E.
+Qed.
+
+(* ------------------------------------------------------------------ *)
+Lemma body_ok : forall (a : token) l body b tl,
+  Forall tok_ok (a :: l ++ body ++ b :: tl) -> Forall tok_ok body.
+Proof.
+  intros a l body b tl H. apply Forall_inv_tail in H. apply Forall_app in H. destruct H as [_ H].
+  apply Forall_app in H. tauto.
+Qed.
+Lemma body_len : forall (a : token) l body b tl f,
+  List.length (a :: l ++ body ++ b :: tl) <= S f -> List.length body <= f.
+Proof.
+  intros a l body b tl f H. cbn [List.length] in H. rewrite !app_length in H. cbn [List.length] in H. lia.
+Qed.
+
+Theorem C02_all : forall o l, P o l.
+Proof.
+  intros o l. induction l using lit_ind'.
+  - (* LBasic *)
+    unfold P. intros wb lay n inside toks n' v tr rest fuel Hlay Hwf Hev Hr Hok Htr Hrest Hfuel.
+    cbn [render] in Hr. injection Hr as <- <-. cbn [lit_wf] in Hwf. destruct Hwf as [Hty Hminus].
+    cbn [py_eval] in Hev.
+    pose proof (trin_trivia lay inside n Hlay) as Htn.
+    pose proof (trin_trivia lay inside (S n) Hlay) as Htn1.
+    destruct fuel as [|f].
+    { exfalso. rewrite !app_length in Hfuel. cbn [List.length] in Hfuel. lia. }
+    destruct neg.
+    + norm.
+      destruct (olookup o ("-" ++ text t)) as [[v'|]|] eqn:El; try discriminate. injection Hev as ->.
+      apply parse_value_basic; [reflexivity|].
+      rewrite (maybe_basic_neg o wb _ (t :: (if inside then lay (S n) else []) ++ tr ++ rest)).
+      * rewrite app_assoc. rewrite basic_loop_atom with (v := v); try assumption.
+        -- reflexivity.
+        -- apply Forall_app; split; assumption.
+      * reflexivity.
+      * apply advance_solid; [exact Htn | unfold solid; tauto].
+      * cbn [cur hd]. destruct Hty as [E|E]; rewrite E; reflexivity.
+    + norm.
+      assert (Htok : text_ok (text t)) by (apply (Forall_inv Hok); tauto).
+      destruct Htok as [_ [_ [Hcl _]]].
+      change (("" ++ text t)%string) with (text t) in Hev.
+      destruct (olookup o (text t)) as [[v'|]|] eqn:El; try discriminate. injection Hev as ->.
+      apply parse_value_basic; [exact Hcl|].
+      rewrite maybe_basic_plain.
+      * rewrite app_assoc. rewrite basic_loop_atom with (v := v); try assumption.
+        -- reflexivity.
+        -- apply Forall_app; split; assumption.
+      * rewrite cur_is_cons. destruct (String.eqb_spec (text t) "-"); [contradiction | reflexivity].
+      * cbn [cur hd]. destruct Hty as [E|E]; rewrite E; reflexivity.
+  - (* LStrs *)
+    unfold P. intros wb lay n inside toks n' v tr rest fuel Hlay Hwf Hev Hr Hok Htr Hrest Hfuel.
+    rewrite render_LStrs in Hr. cbn [lit_wf] in Hwf. destruct Hwf as [Hne [Hstr Hpre]].
+    destruct ts as [|t more]; [congruence|].
+    cbn [py_eval] in Hev.
+    destruct (olookup o (strs_text (t :: more))) as [[v'|]|] eqn:El; try discriminate. injection Hev as ->.
+    pose proof (render_strs_length _ _ _ _ _ Hr) as Hl. cbn [List.length] in Hl.
+    destruct (render_strs_cons _ _ _ _ _ _ Hr) as [toks1 [_ Etoks]].
+    assert (Htok : text_ok (text t)).
+    { rewrite Etoks in Hok. apply (Forall_inv Hok). right; right. exact (Forall_inv Hstr). }
+    destruct Htok as [Hne1 [Hne2 [Hcl _]]].
+    destruct fuel as [|f]; [lia|].
+    apply parse_value_basic.
+    { rewrite Etoks. cbn [app cur hd]. exact Hcl. }
+    rewrite maybe_basic_plain.
+    + rewrite (basic_loop_strs o wb (fun k => if inside then lay k else []) more t n toks n'
+                 _ "" v tr rest); try assumption.
+      * reflexivity.
+      * intro k. apply trin_trivia. exact Hlay.
+      * apply Forall_forall. intros p Hp.
+        destruct (prefixes_ne_head _ _ _ Hp) as [p' ->].
+        rewrite (fold_acc_strs_text t p' Hne1 Hne2).
+        rewrite Forall_forall in Hpre. exact (Hpre _ Hp).
+      * rewrite (fold_acc_strs_text t more Hne1 Hne2). exact El.
+      * rewrite !app_length. lia.
+    + rewrite Etoks. cbn [app]. rewrite cur_is_cons.
+      destruct (String.eqb_spec (text t) "-"); [contradiction | reflexivity].
+    + rewrite Etoks. cbn [app cur hd]. rewrite (Forall_inv Hstr). reflexivity.
+  - (* LList *)
+    unfold P. intros wb lay n inside toks n' v tr rest fuel Hlay Hwf Hev Hr Hok Htr Hrest Hfuel.
+    rewrite render_LList in Hr. destruct (render_items lay trailing items (S n)) as [body n1] eqn:Hb.
+    injection Hr as <- <-. rewrite py_eval_LList in Hev.
+    destruct (eval_items o items) as [vs|] eqn:Evs; [|discriminate]. injection Hev as <-.
+    apply lit_wf_LList in Hwf.
+    assert (Hokb : Forall tok_ok body).
+    { exact (body_ok _ _ _ _ _ Hok). }
+    destruct fuel as [|f]; [cbn in Hfuel; lia|].
+    assert (Hlenb : List.length body <= f).
+    { exact (body_len _ _ _ _ _ _ Hfuel). }
+    apply container_parse with (close := "]") (vals := [] ++ vs) (pairs := []) (sc := false || has_comma items trailing);
+      try assumption; try reflexivity.
+    + apply trin_trivia; exact Hlay.
+    + destruct (render_items_shape _ _ _ _ _ _ _ Hwf Hb Hokb) as [[_ E]|[_ E]]; [left|right]; exact E.
+    + intros fuel R Hf. apply (loop_items o f wb "]" lay trailing Hlay) with (n := S n) (n1 := n1); try assumption.
+      * left; reflexivity.
+      * pose proof (render_items_length _ _ _ _ _ _ _ Hwf Hb Hokb). lia.
+  - (* LTuple *)
+    unfold P. intros wb lay n inside toks n' v tr rest fuel Hlay Hwf Hev Hr Hok Htr Hrest Hfuel.
+    rewrite render_LTuple in Hr. destruct (render_items lay trailing items (S n)) as [body n1] eqn:Hb.
+    injection Hr as <- <-. rewrite py_eval_LTuple in Hev.
+    destruct (eval_items o items) as [vs|] eqn:Evs; [|discriminate]. injection Hev as <-.
+    apply lit_wf_LTuple in Hwf. destruct Hwf as [Hone Hwf].
+    assert (Hokb : Forall tok_ok body).
+    { exact (body_ok _ _ _ _ _ Hok). }
+    destruct fuel as [|f]; [cbn in Hfuel; lia|].
+    assert (Hlenb : List.length body <= f).
+    { exact (body_len _ _ _ _ _ _ Hfuel). }
+    apply container_parse with (close := ")") (vals := [] ++ vs) (pairs := []) (sc := false || has_comma items trailing);
+      try assumption; try reflexivity.
+    + apply trin_trivia; exact Hlay.
+    + destruct (render_items_shape _ _ _ _ _ _ _ Hwf Hb Hokb) as [[_ E]|[_ E]]; [left|right]; exact E.
+    + intros fuel R Hf. apply (loop_items o f wb ")" lay trailing Hlay) with (n := S n) (n1 := n1); try assumption.
+      * right; left; reflexivity.
+      * pose proof (render_items_length _ _ _ _ _ _ _ Hwf Hb Hokb). lia.
+    + (* the value: a one-tuple carries its comma *)
+      pose proof (eval_items_length _ _ _ Evs) as Hl.
+      destruct items as [|x [|y r]].
+      * destruct vs; [reflexivity | discriminate].
+      * rewrite (Hone eq_refl). destruct vs as [|a [|b vs]]; try discriminate. reflexivity.
+      * destruct vs as [|a [|b vs]]; try discriminate. reflexivity.
+  - (* LParen *)
+    unfold P. intros wb lay n inside toks n' v tr rest fuel Hlay Hwf Hev Hr Hok Htr Hrest Hfuel.
+    rewrite render_LParen in Hr. destruct (render l lay (S n) true) as [tx n1] eqn:Hrx.
+    injection Hr as <- <-. cbn [py_eval lit_wf] in Hev, Hwf.
+    assert (Hoktx : Forall tok_ok tx).
+    { exact (body_ok _ _ _ _ _ Hok). }
+    destruct fuel as [|f]; [cbn in Hfuel; lia|].
+    assert (Hlenb : List.length tx <= f).
+    { exact (body_len _ _ _ _ _ _ Hfuel). }
+    destruct (render_first _ _ _ _ _ _ _ Hwf Hrx Hoktx) as [t0 [tx' [Etx Hs0]]].
+    apply container_parse with (close := ")") (vals := [] ++ [v]) (pairs := []) (sc := false || has_comma [l] false);
+      try assumption; try reflexivity.
+    + apply trin_trivia; exact Hlay.
+    + right. exists t0, tx'. split; assumption.
+    + intros fuel R Hf.
+      pose proof (loop_items o f wb ")" lay false Hlay (or_intror (or_introl eq_refl)) [l]
+                    (Forall_cons _ IHl (Forall_nil _)) (Forall_cons _ Hwf (Forall_nil _))
+                    (S n) (tx ++ []) (S n1) [v] R [] [] false fuel) as HL.
+      rewrite app_nil_r in HL. apply HL; try assumption.
+      * cbn [eval_items]. rewrite Hev. reflexivity.
+      * cbn [render_items]. rewrite Hrx. rewrite app_nil_r. reflexivity.
+      * rewrite Etx in Hf. cbn [List.length] in *. lia.
+  - (* LDict *)
+    unfold P. intros wb lay n inside toks n' v tr rest fuel Hlay Hwf Hev Hr Hok Htr Hrest Hfuel.
+    rewrite render_LDict in Hr. destruct (render_ditems lay trailing items (S n)) as [body n1] eqn:Hb.
+    injection Hr as <- <-. rewrite py_eval_LDict in Hev.
+    destruct (eval_ditems o items) as [kvs|] eqn:Evs; [|discriminate]. injection Hev as <-.
+    apply lit_wf_LDict in Hwf.
+    assert (Hokb : Forall tok_ok body).
+    { exact (body_ok _ _ _ _ _ Hok). }
+    destruct fuel as [|f]; [cbn in Hfuel; lia|].
+    assert (Hlenb : List.length body <= f).
+    { exact (body_len _ _ _ _ _ _ Hfuel). }
+    apply container_parse with (close := "}") (vals := [] ++ map snd kvs) (pairs := [] ++ kvs)
+                               (sc := false || has_comma items trailing);
+      try assumption; try reflexivity.
+    + apply trin_trivia; exact Hlay.
+    + destruct (render_ditems_shape _ _ _ _ _ _ _ Hwf Hb Hokb) as [[_ E]|[_ E]]; [left|right]; exact E.
+    + intros fuel R Hf. apply (loop_ditems o f wb lay trailing Hlay) with (n := S n) (n1 := n1); try assumption.
+      pose proof (render_ditems_length _ _ _ _ _ _ _ Hwf Hb Hokb). lia.
+Qed.
+
+(* ------------------------------------------------------------------ *)
+(* C02 completeness, explicit fuel, both values of within_block *)
+Theorem C02_complete_strong : forall o l wb lay n inside v toks n' tr rest fuel,
+  lay_ok lay -> lit_wf o l -> py_eval o l = Some v ->
+  render l lay n inside = (toks, n') ->
+  Forall tok_ok toks ->
+  Forall trivia_tok tr ->
+  rest <> [] -> (forall t r', rest = t :: r' -> follow_ok t) ->
+  List.length toks <= fuel ->
+  parse_value fuel o wb (toks ++ tr ++ rest) = POk (v, rest).
+Proof.
+  intros o l wb lay n inside v toks n' tr rest fuel Hlay Hwf Hev Hr Hok Htr Hne Hfol Hfuel.
+  apply (C02_all o l wb lay n inside toks n' v tr rest fuel); try assumption.
+  destruct rest as [|t r']; [congruence|]. exists t, r'. split; [reflexivity|]. exact (Hfol t r' eq_refl).
+Qed.
+
+Theorem C02_complete : forall o l lay n inside v toks n' tr rest,
+  lay_ok lay -> lit_wf o l -> py_eval o l = Some v ->
+  render l lay n inside = (toks, n') ->
+  Forall tok_ok toks ->
+  Forall trivia_tok tr -> (inside = false -> True) ->
+  rest <> [] -> (forall t r', rest = t :: r' -> follow_ok t) ->
+  exists fuel0, forall fuel, fuel0 <= fuel ->
+    parse_value fuel o false (toks ++ tr ++ rest) = POk (v, rest).
+Proof.
+  intros o l lay n inside v toks n' tr rest Hlay Hwf Hev Hr Hok Htr _ Hne Hfol.
+  exists (List.length toks). intros fuel Hfuel.
+  apply (C02_complete_strong o l false lay n inside v toks n' tr rest fuel); assumption.
+Qed.
+
+(* the fuel the parser model actually uses is enough *)
+Corollary C02_value_fuel : forall o l wb lay n inside v toks n' tr rest,
+  lay_ok lay -> lit_wf o l -> py_eval o l = Some v ->
+  render l lay n inside = (toks, n') ->
+  Forall tok_ok toks -> Forall trivia_tok tr ->
+  rest <> [] -> (forall t r', rest = t :: r' -> follow_ok t) ->
+  parse_value (value_fuel (toks ++ tr ++ rest)) o wb (toks ++ tr ++ rest) = POk (v, rest).
+Proof.
+  intros o l wb lay n inside v toks n' tr rest Hlay Hwf Hev Hr Hok Htr Hne Hfol.
+  apply (C02_complete_strong o l wb lay n inside v toks n' tr rest); try assumption.
+  unfold value_fuel. rewrite app_length. lia.
+Qed.
+
+(* ... and so the engine entry point returns Python's value *)
+Corollary C02_run_value : forall o l lay n inside v toks n' tr rest,
+  lay_ok lay -> lit_wf o l -> py_eval o l = Some v ->
+  render l lay n inside = (toks, n') ->
+  Forall tok_ok toks -> Forall trivia_tok tr ->
+  rest <> [] -> (forall t r', rest = t :: r' -> follow_ok t) ->
+  run_value (o, toks ++ tr ++ rest) = OT "Value" [v].
+Proof.
+  intros o l lay n inside v toks n' tr rest Hlay Hwf Hev Hr Hok Htr Hne Hfol.
+  unfold run_value. cbn [fst snd].
+  destruct (render_first _ _ _ _ _ _ _ Hwf Hr Hok) as [t0 [toks' [E Hs]]].
+  assert (Hset : settle (toks ++ tr ++ rest) = POk (toks ++ tr ++ rest)).
+  { rewrite E. cbn [app]. destruct (solid_noerr _ (start_solid _ Hs)).
+    apply settle_non_trivia; assumption. }
+  rewrite Hset.
+  rewrite (C02_value_fuel o l false lay n inside v toks n' tr rest); try assumption.
+  reflexivity.
+Qed.
+
+Print Assumptions C02_complete.
+Print Assumptions C02_complete_strong.
+Print Assumptions C02_value_fuel.
+Print Assumptions C02_run_value.
+Print Assumptions settle_non_trivia.
+Print Assumptions skip_ws_trivia.
+Print Assumptions one_tuple_rule.
+Print Assumptions one_tuple_rule_comma.
+Print Assumptions split_binding_key_spec.
+Print Assumptions split_binding_key_spec_strong.
+Print Assumptions split_scoped_spec.
+Print Assumptions selector_strict.
+Print Assumptions selector_rejects_gap.
+
+(* non-vacuity: the hypotheses are satisfiable on a concrete list with comments, NLs,
+   a negative number, a two-piece string run and a trailing comma *)
+Module C02_Example.
+Definition tk ty s := {| ty := ty; text := s; srow := 1; scol := 0; erow := 1; ecol := 0 |}.
+Definition nl := tk NL "\n". Definition cm := tk COMMENT "# c".
+Definition lay : layout := fun n => match n with 0 => [nl] | 3 => [cm; nl] | 5 => [nl;nl] | 7 => [cm] | _ => [] end.
+Definition o : oracle := [("1", Some (OZ 1)); ("'a'", Some (OS "a")); ("'a' 'b'", Some (OS "ab")); ("-1", Some (OZ (-1)))].
+Definition l1 := LList [LBasic true (tk NUMBER "1"); LStrs [tk STRING "'a'"; tk STRING "'b'"]] true.
+Example ex1 : run_value (o, fst (render l1 lay 0 false) ++ [cm] ++ [tk NEWLINE ""; tk ENDMARKER ""]) = OT "Value" [OT "L" [OZ (-1); OS "ab"]].
+Proof.
+  eapply C02_run_value with (l := l1) (lay := lay) (n := 0) (inside := false).
+  - intro n. unfold lay. do 8 (destruct n as [|n]; [repeat constructor; (left; reflexivity) || (right; reflexivity)|]). constructor.
+  - cbn. repeat split; try (intro; discriminate); try tauto.
+    + repeat constructor.
+    + repeat constructor; eexists; reflexivity.
+  - reflexivity.
+  - reflexivity.
+  - cbn. repeat (apply Forall_cons || apply Forall_nil); intros [H|[H|H]]; try discriminate H; repeat split; try (intro; discriminate); reflexivity.
+  - constructor; [right; reflexivity | constructor].
+  - discriminate.
+  - intros t r' E. injection E as <- _. right; left; reflexivity.
+Qed.
+End C02_Example.
